@@ -101,6 +101,7 @@ def parse(argv: list[str]) -> argparse.Namespace:
     p.add_argument("--budget", type=float, default=None, help="soft wall budget (s)")
     p.add_argument("--workers", type=int, default=None)
     p.add_argument("--replay", default=None)
+    p.add_argument("--prefix", default=None, help="internal: 'none', 'all' or comma-separated run indices executed in-process before the replayed scenario")
     p.add_argument("--run-seed", type=int, default=None, help="execute one run seed verbosely")
     p.add_argument("--index", type=int, default=None, help="execute one run index verbosely")
     p.add_argument("--logs", action="store_true", help="record per-run event-log digests")
@@ -276,6 +277,7 @@ def worker_main(a: argparse.Namespace) -> int:
                 meta = {
                     "run_seed": rs,
                     "run_index": index,
+                    "process_prefix_indices": list(range(lo, index)),
                     "verif_seed": a.seed,
                     "tier": a.tier,
                     "hashseed": env.hashseed,
@@ -314,17 +316,67 @@ def worker_main(a: argparse.Namespace) -> int:
 
 
 def replay_main(a: argparse.Namespace) -> int:
+    """Replay a replay file in a fresh interpreter.
+
+    A violation may depend on state that earlier *runs of the same worker process* left behind in the library
+    (module-level caches and the like) - that is itself history dependence of the library.  The replay file
+    therefore records which runs preceded the failing one in its process.  Replay first executes the recorded
+    scenario alone; only if that shows nothing, it re-executes in a fresh interpreter with the recorded
+    predecessor runs first, minimises that list (ddmin, each trial a fresh interpreter) and stores it in the file.
+    """
     data = json.load(open(a.replay))
     prop = data["property"]
-    want_hs = str(data.get("meta", {}).get("hashseed", "0"))
+    meta = data.get("meta", {})
+    want_hs = str(meta.get("hashseed", "0"))
     if os.environ.get("PYTHONHASHSEED") != want_hs and want_hs != "random":
         envp = dict(os.environ, PYTHONHASHSEED=want_hs, **SINGLE_THREAD_ENV)
-        return subprocess.call([sys.executable, str(VERIF / "check"), prop, "--replay", a.replay], env=envp)
+        cmd = [sys.executable, str(VERIF / "check"), prop, "--replay", a.replay]
+        if a.prefix is not None:
+            cmd += ["--prefix", a.prefix]
+        return subprocess.call(cmd, env=envp)
+
+    if a.prefix is None:
+        # orchestrator
+        def attempt(prefix: str) -> subprocess.CompletedProcess:
+            return subprocess.run([sys.executable, str(VERIF / "check"), prop, "--replay", a.replay, "--prefix", prefix],
+                                  capture_output=True, text=True, env=dict(os.environ), timeout=900)
+
+        recorded = meta.get("needed_prefix_indices")
+        first = attempt("none" if not recorded else ",".join(map(str, recorded)))
+        if first.returncode == 1 or not meta.get("process_prefix_indices") or recorded:
+            sys.stdout.write(first.stdout)
+            sys.stderr.write(first.stderr[-2000:])
+            return first.returncode
+        allp = list(meta["process_prefix_indices"])
+        full = attempt(",".join(map(str, allp)))
+        if full.returncode != 1:
+            sys.stdout.write(first.stdout)
+            return first.returncode
+        t_end = time.time() + 75
+        keep_idx = core.ddmin(len(allp), lambda keep: attempt(",".join(str(allp[i]) for i in keep)).returncode == 1, lambda: time.time() < t_end)
+        need = [allp[i] for i in keep_idx]
+        data["meta"]["needed_prefix_indices"] = need
+        data["meta"]["needs_process_history"] = True
+        with open(a.replay, "w") as f:
+            json.dump(data, f, indent=1, default=core._jdefault)
+        final = attempt(",".join(map(str, need)))
+        sys.stdout.write(final.stdout)
+        print(f"NOTE the violation needs {len(need)} earlier run(s) of the same process (indices {need}); recorded in the replay file")
+        return final.returncode
+
     mod = load_check(prop)
-    env = WorkerEnv(prop, data.get("meta", {}).get("tier", "quick"), 0)
+    env = WorkerEnv(prop, meta.get("tier", "quick"), 0)
     try:
         if hasattr(mod, "worker_setup"):
-            mod.worker_setup(env, replay_meta=data.get("meta", {})) if _accepts_meta(mod.worker_setup) else mod.worker_setup(env)
+            mod.worker_setup(env, replay_meta=meta) if _accepts_meta(mod.worker_setup) else mod.worker_setup(env)
+        if a.prefix not in ("none", ""):
+            idxs = meta.get("process_prefix_indices", []) if a.prefix == "all" else [int(x) for x in a.prefix.split(",") if x]
+            for idx in idxs:
+                rs = core.run_seed(int(meta.get("verif_seed", 0)), prop, idx)
+                try:
+                    mod.execute(mod.generate(rs, meta.get("tier", "quick")), env)
+                except Exception:  # noqa: BLE001
+                    pass
         res = mod.execute(data["scenario"], env)
     finally:
         if hasattr(mod, "worker_teardown"):
@@ -334,7 +386,7 @@ def replay_main(a: argparse.Namespace) -> int:
     want = data.get("violation") or {}
     if v:
         same = v["clause"] == want.get("clause") and v.get("step") == want.get("step")
-        print(f"REPLAY clause={v['clause']} step={v.get('step')} same_as_recorded={same}")
+        print(f"REPLAY clause={v['clause']} step={v.get('step')} same_as_recorded={same} prefix={a.prefix}")
         print("detail:", json.dumps(v.get("detail"), default=core._jdefault)[:3000])
         print(f"VIOLATION property={prop} replay={a.replay}")
         return 1
@@ -505,7 +557,13 @@ def driver_main(a: argparse.Namespace) -> int:
     known = load_known()
     confirmed: list[dict] = []
     known_hits: list[tuple[dict, dict]] = []
-    for v in viols[: tier.get("max_confirm", 6)]:
+    seen_clauses: dict[str, int] = {}
+    to_confirm = []
+    for v in viols:
+        seen_clauses[v["clause"]] = seen_clauses.get(v["clause"], 0) + 1
+        if seen_clauses[v["clause"]] <= 2 and len(to_confirm) < tier.get("max_confirm", 6):
+            to_confirm.append(v)
+    for v in to_confirm:
         envp = dict(os.environ, **SINGLE_THREAD_ENV)
         envp.pop("PYTHONHASHSEED", None)
         try:
